@@ -757,7 +757,7 @@ func runLn(d desc) hlib.Case {
 	// after an event that may release parked goroutines, wait for them
 	settle := func() {
 		time.Sleep(200 * time.Microsecond)
-		poll(50*time.Millisecond, func() bool {
+		poll(longWait, func() bool {
 			collect()
 			for id, ds := range dials {
 				if ds.res == nil {
